@@ -1,5 +1,6 @@
 """C07 — Rational: canonical-form discipline, operator families, Eq/Hash/Ord coherence, sign of
 norm, cross-multiplication identities.  DESIGN.md §4 C07."""
+import re as _re
 from .. import util
 from ..absint import tstr, mk_int, subterms, strip_mem
 from ..core import Anchor
@@ -360,7 +361,7 @@ def check(col, prog, tier, profile, fixture=None):
                         # `diff.sign()` with the helper inlined: &(diff).a
                         lhs = ("proj", args[0][1][2], args[0][1][1][1])
                     rhs = args[1][1][1] if args[1][0] == "ref" and args[1][1][0] == "constval" else args[1]
-                    ok = lhs[0] == "proj" and lhs[1] == A and lhs[2][0] == "call" and str(lhs[2][1]).endswith("Sub<&Rational<T>>>::sub") and rhs[0] == "assoc" and rhs[2] == "ZERO"
+                    ok = lhs[0] == "proj" and lhs[1] == A and lhs[2][0] == "call" and bool(_re.search(r"Sub<&Rational<\w+>>>::sub$", str(lhs[2][1]))) and rhs[0] == "assoc" and rhs[2] == "ZERO"
                     if ok:
                         sargs = lhs[2][2]
                         ok = sargs[0][0] == "load" and sargs[0][2] == ("deref", ("param", 1, I.names.get(1))) and sargs[1] in (("param", 2, I.names.get(2)), ("ref", ("deref", ("param", 2, I.names.get(2)))))
